@@ -50,8 +50,15 @@ class RenderError(Exception):
     pass
 
 
-def frame_renderable(rows, flaky):
-    """A renderable showing one label per row; raises RenderError while flaky['broken']."""
+def wide_text(idv):
+    """the label followed by filler that runs past the terminal's last column (only the display can keep that off the screen)"""
+    t = label_text(idv)
+    return t + " " + "w" * (W + 7) if t else t
+
+
+def frame_renderable(rows, flaky, wide=False):
+    """A renderable showing one label per row; raises RenderError while flaky['broken'].  wide: every row is longer than
+    the terminal is wide and does not shorten itself (overflow="ignore")."""
     from rich.console import RenderGroup
     from rich.text import Text
 
@@ -62,7 +69,10 @@ def frame_renderable(rows, flaky):
         def __rich_console__(self, console, options):
             if flaky["broken"]:
                 raise RenderError("render")
-            yield RenderGroup(*[Text(label_text(r), overflow="crop", no_wrap=True) for r in self.rows])
+            if wide:
+                yield RenderGroup(*[Text(wide_text(r), overflow="ignore", no_wrap=True) for r in self.rows])
+            else:
+                yield RenderGroup(*[Text(label_text(r), overflow="crop", no_wrap=True) for r in self.rows])
     return Rows(rows)
 
 
@@ -133,14 +143,14 @@ def execute(spec, ops):
                     if cls == "status":
                         disp.update(status=label_text(op["rows"][0]))
                     else:
-                        disp.update(frame_renderable(op["rows"], flaky), refresh=op["refresh"])
+                        disp.update(frame_renderable(op["rows"], flaky, wide=spec.get("wide", False)), refresh=op["refresh"])
                 elif k == "refresh":
                     if cls == "status":
                         disp._live.refresh()
                     else:
                         disp.refresh()
                 elif k == "add":
-                    taskids[op["id"]] = disp.add_task(label_text(op["label"]))
+                    taskids[op["id"]] = disp.add_task((wide_text if spec.get("wide") else label_text)(op["label"]))
                 elif k == "hide":
                     disp.update(taskids[op["id"]], visible=False)
                 elif k == "show":
@@ -167,7 +177,7 @@ def execute(spec, ops):
                 queue = [dict(k="exit", bodyexc=True)] if getattr(live, "_started", False) else []
     finally:
         sys.stdout, sys.stderr = real_out, real_err
-    return dict(mode=spec["mode"], transient=spec["transient"], overflow=spec["overflow"], H=spec["H"], cls=cls, events=events,
+    return dict(mode=spec["mode"], transient=spec["transient"], overflow=spec["overflow"], H=spec["H"], W=W, cls=cls, events=events,
                 cur0=[F(0, 1)] if cls == "status" else ([] if cls == "progress" else [0]))
 
 
@@ -259,6 +269,10 @@ SPECS = [
     dict(cls="progress", mode="max", transient=False, overflow="visible", H=25),
     dict(cls="progress", mode="max", transient=True, overflow="visible", H=3),
     dict(cls="status", mode="last", transient=True, overflow="ellipsis", H=25),
+    # frames whose every row is wider than the terminal: the display has to keep them inside its last column
+    dict(cls="live", mode="last", transient=False, overflow="ellipsis", H=25, wide=True),
+    dict(cls="live", mode="last", transient=True, overflow="visible", H=4, wide=True),
+    dict(cls="progress", mode="max", transient=False, overflow="visible", H=25, wide=True),
 ]
 
 
